@@ -121,7 +121,10 @@ RULE = ('frames of every length 0-512 x {random, all-equal, ramp, alternating, n
         'encodings + random bytes x start channels around 0/511/512 x receiver buffer {unallocated, short, full}; '
         'per protocol (ShowNet, SandNet, ESP Net, Pathport, Art-Net, E1.31 rev 3 and rev 2) real-node send->receive '
         'over the address space (universe/net/sub-net/port, priorities, sequence numbers incl. wrap, source names), '
-        'same and different receiver address; non-trivial = complete encode / whole decode / datagram handled; '
+        'same and different receiver address; transmit DmxBuffers carry history (an earlier, longer frame left in the '
+        '512-byte block; explicit dirty-block cases for Encode and ShowNet with short frames); Art-Net sender and receiver '
+        'as separate nodes with 0/1/4 input ports and the address setters called in every order before/after Start(); '
+        'non-trivial = complete encode / whole decode / datagram handled; '
         'distinct = distinct model output line')
 ASSUMPTIONS = ['frames have at most 512 slots (DmxBuffer invariant)',
                'UDP delivery is the identity on datagrams (sendto/recvfrom interposed at link time)',
@@ -274,6 +277,33 @@ def gen_cases(rng, tier):
             caps |= set(range(0, 21)) | {rng.randrange(0, e + 1) for _ in range(4)}
         for c in sorted(x for x in caps if x >= 0):
             yield 'enc %d %s' % (c, hx(f))
+    # ---- encoder / ShowNet sender on a DmxBuffer with history: the 512-byte block still holds an earlier,
+    #      longer frame beyond the current length (Get() beyond the frame must read as 0)
+    def dirties(f):
+        v = f[-1] if f else 0
+        yield [(v + 1 + k * 37) & 255 for k in range(512)]                 # no three equal neighbours
+        yield notriple(rng, 512)
+        yield [v] * 512                                                     # continues the frame's last value
+        yield f + [v, v] + notriple(rng, rng.randrange(1, 200))            # would extend a run past the end
+        yield f + notriple(rng, rng.choice([1, 2, 3, 130]))                # just a little longer
+        yield [0] * 512
+    shorts = [[rng.randrange(256) for _ in range(n)] for n in (1, 1, 2, 2, 3, 3, 4, 5, 10, 126, 127, 128, 129, 300)]
+    shorts += [[9], [0], [5, 5], [5, 5, 5], [1, 2, 2], [3, 3, 1], [7] * 4 + [1, 2]]
+    if not quick:
+        shorts += [[rng.choice([0, 7, 255]) for _ in range(rng.randrange(1, 40))] for _ in range(200)]
+    for f in shorts:
+        e = len(py_enc(f))
+        for dty in dirties(f):
+            dty = dty[:512]
+            for c in sorted({1310, e, e + 1, max(0, e - 1), 2, 3}):
+                yield 'encd %d %s %s' % (c, hx(dty), hx(f))
+            u = rng.randrange(8)
+            yield 'snd %d %d %s %d %s %s %s' % (u, u, 'none', rng.randrange(65536), '-', hx(dty), hx(f))
+    for i, (kind, f) in enumerate(fl):
+        if f and (not quick or i % 4 == 0):
+            u = rng.randrange(8)
+            yield 'snd %d %d %s %d %s %s %s' % (u, u, olds(rng, len(f)), rng.randrange(65536), '-',
+                                                 hx(next(dirties(f))), hx(f))
     # ---- decoder: truncations of valid encodings, random bytes, start channels, receiver states
     starts = [0, 0, 0, 1, 100, 385, 500, 510, 511, 512, 513, 600]
     sub = fl if not quick else rng.sample(fl, min(len(fl), 250))
@@ -316,6 +346,12 @@ def gen_cases(rng, tier):
         huni = uni if rng.random() < 0.85 else (uni + 1) % 16
         yield 'an %d %d %d %d %d %s %d %s' % (net, sub, uni, rng.randrange(4), huni, olds(rng, len(f)),
                                               rng.choice([0, 0, 1, 2, 255, 256]), hx(f))
+        # Art-Net, separate sender / receiver nodes, receiver with 0/1/4 input ports, configuration calls in
+        # every order, before or after Start(), any output port
+        net, sub, uni = rng.choice([0, 1, 127, rng.randrange(128)]), rng.choice([0, 1, 15, rng.randrange(16)]), rng.randrange(16)
+        huni = uni if rng.random() < 0.9 else (uni + 1) % 16
+        yield 'an2 %d %d %d %d %d %d %d %s %d %s' % (rng.choice([0, 0, 1, 4]), rng.randrange(48), net, sub, uni,
+                                                     rng.randrange(4), huni, olds(rng, len(f)), rng.choice([0, 0, 1, 255]), hx(f))
         # E1.31, both revisions
         for rev2 in (0, 1):
             u = rng.choice([1, 2, 255, 256, 63999, 65534, rng.randrange(1, 65535), rng.randrange(1, 65535)])
@@ -343,6 +379,13 @@ def gen_cases(rng, tier):
                     yield 'an %d %d %d %d %d none 0 %s' % (net, sub, uni, (sub + uni) % 4, uni, hx(f))
         for net in range(128):
             yield 'an %d 3 4 1 4 none 1 %s' % (net, hx(f + [7]))
+        for ipc in (0, 1, 4):
+            for sub in range(16):
+                for uni in range(16):
+                    yield 'an2 %d %d %d %d %d %d %d none 0 %s' % (ipc, (sub * 16 + uni + ipc) % 48, (sub * 8 + uni) % 128,
+                                                                   sub, uni, uni % 4, uni, hx(f))
+            for order in range(48):
+                yield 'an2 %d %d 5 9 3 1 3 none 0 %s' % (ipc, order, hx(f))
         for u in list(range(1, 300)) + list(range(65000, 65535)) + [rng.randrange(1, 65535) for _ in range(500)]:
             yield 'e1 %d %d %d none 0 100 0 %s %s' % (u & 1, u, u, hx(b'OLA'), hx(f))
 
